@@ -926,7 +926,7 @@ func (g *Gengine) ExecuteNSortMConcurrent(nSort, mConcurrent int, rb *builder.Ru
 			if e != nil {
 				eMsg = append(eMsg, fmt.Sprintf("%+v", e))
 			}
-		} else {
+		} else if e != nil {
 			return e
 		}
 	}
@@ -1025,7 +1025,7 @@ func (g *Gengine) ExecuteNConcurrentMSort(nConcurrent, mSort int, rb *builder.Ru
 			if e != nil {
 				eMsg = append(eMsg, fmt.Sprintf("%+v", e))
 			}
-		} else {
+		} else if e != nil {
 			return e
 		}
 	}
@@ -1181,7 +1181,7 @@ func (g *Gengine) ExecuteSelectedNSortMConcurrent(nSort, mConcurrent int, rb *bu
 			if e != nil {
 				eMsg = append(eMsg, fmt.Sprintf("%+v", e))
 			}
-		} else {
+		} else if e != nil {
 			return e
 		}
 	}
@@ -1301,7 +1301,7 @@ func (g *Gengine) ExecuteSelectedNConcurrentMSort(nConcurrent, mSort int, rb *bu
 			if e != nil {
 				eMsg = append(eMsg, fmt.Sprintf("%+v", e))
 			}
-		} else {
+		} else if e != nil {
 			return e
 		}
 	}
